@@ -101,7 +101,7 @@ def gen_cfg(rng):
             if little:
                 y += ['      endianness: little']
             toks += ['nf', '#%x' % ver, '#%x' % int(penp), '#%x' % pen, '#%x' % fid, d, '#%x' % int(little)]
-    nl = rng.randrange(3, 9) if dense else rng.randrange(0, 7)
+    nl = rng.randrange(3, 7) if dense else rng.randrange(0, 7)
     np_ = rng.randrange(0, 3)
     if nl or np_:
         y += ['sflow:']
